@@ -15,6 +15,7 @@ The solver's own `alpha`, `beta` are the exponents of the mean-free-path law
 import EPV.Gen.Cog8D
 import EPV.Spec.Euler1D
 import EPV.Lemmas.Euler1D
+import EPV.Lemmas.HydroRobust
 import EPV.Tactics
 
 set_option linter.all false
@@ -29,8 +30,8 @@ theorem cog8_leaves : Cog8.okLeaves = [1] := rfl
 theorem cog8_mass (p : Cog8.P) (r t : ℝ) (hr : 0 < r) (ht : 0 < t) (hden : p.beta - p.alpha + 4 ≠ 0) :
     massRes (Cog8.L1.density p) (Cog8.L1.velocity p) (p.geometry - 1) r t = 0 := by
   unfold massRes dr dt
-  rw [(Cog8.L1.density_hasDerivAt_t p r t ht).deriv, (Cog8.L1.density_hasDerivAt_r p r t hr).deriv,
-    (Cog8.L1.velocity_hasDerivAt_r p r t).deriv]
+  epv_hydro_rw_derivs [Cog8.L1.density_hasDerivAt_t p r t, Cog8.L1.density_hasDerivAt_r p r t,
+    Cog8.L1.velocity_hasDerivAt_r p r t]
   simp only [epv_deriv, epv_leaf]
   field_simp
   ring
@@ -39,11 +40,10 @@ theorem cog8_momentum (p : Cog8.P) (r t : ℝ) (hr : 0 < r) (ht : 0 < t) (hden :
     (hρ : p.rho0 ≠ 0) :
     momResT (Cog8.L1.density p) (Cog8.L1.velocity p) (Cog8.L1.temperature p) p.Gamma r t = 0 := by
   unfold momResT dr dt
-  rw [(Cog8.L1.velocity_hasDerivAt_t p r t ht.ne').deriv, (Cog8.L1.velocity_hasDerivAt_r p r t).deriv,
-    (Cog8.L1.density_hasDerivAt_r p r t hr).deriv, (Cog8.L1.temperature_hasDerivAt_r p r t hr).deriv]
+  epv_hydro_rw_derivs [Cog8.L1.velocity_hasDerivAt_t p r t, Cog8.L1.velocity_hasDerivAt_r p r t,
+    Cog8.L1.density_hasDerivAt_r p r t, Cog8.L1.temperature_hasDerivAt_r p r t]
   simp only [epv_deriv, epv_leaf]
-  have h1 := Real.rpow_pos_of_pos hr (((p.geometry - (1 : ℝ)) - (1 : ℝ)) / ((p.beta - p.alpha) + (4 : ℝ)))
-  have h2 := Real.rpow_pos_of_pos ht (-(((p.geometry - (1 : ℝ)) + (1 : ℝ)) + (((p.geometry - (1 : ℝ)) - (1 : ℝ)) / ((p.beta - p.alpha) + (4 : ℝ)))))
+  epv_hydro_facts
   field_simp
   ring
 
@@ -51,8 +51,8 @@ theorem cog8_energy_hydro (p : Cog8.P) (r t : ℝ) (hr : 0 < r) (ht : 0 < t) (hd
     (hγ : p.gamma - 1 ≠ 0) :
     energyHydroT (Cog8.L1.velocity p) (Cog8.L1.temperature p) p.Gamma p.gamma (p.geometry - 1) r t = 0 := by
   unfold energyHydroT dr dt
-  rw [(Cog8.L1.temperature_hasDerivAt_t p r t ht).deriv, (Cog8.L1.velocity_hasDerivAt_r p r t).deriv,
-    (Cog8.L1.temperature_hasDerivAt_r p r t hr).deriv]
+  epv_hydro_rw_derivs [Cog8.L1.temperature_hasDerivAt_t p r t, Cog8.L1.velocity_hasDerivAt_r p r t,
+    Cog8.L1.temperature_hasDerivAt_r p r t]
   simp only [epv_deriv, epv_leaf]
   field_simp
   ring
@@ -62,7 +62,7 @@ theorem cog8_flux_near (p : Cog8.P) (r t : ℝ) (hr : 0 < r) :
     (fun x => heatFlux (Cog8.L1.density p) (Cog8.L1.temperature p) p.c_light p.a_rad p.lam0_ p.alpha_ p.beta_ x t)
       =ᶠ[𝓝 r] fun x => Cog8.L1.heat_flux p x t :=
   heatFlux_eventuallyEq (G' := fun x => Cog8.L1.aT4_dr p x t) (Ioi_mem_nhds hr)
-    (fun x hx => Cog8.L1.aT4_hasDerivAt_r p x t hx)
+    (fun x hx => by have hx' : 0 < x := hx; epv_hydro_cert Cog8.L1.aT4_hasDerivAt_r p x t)
 
 /-- the flux is divergence free: ∂_r F + k F / r = 0 -/
 theorem cog8_flux_div (p : Cog8.P) (r t : ℝ) (hr : 0 < r) (ht : 0 < t) (hden : p.beta - p.alpha + 4 ≠ 0)
@@ -70,10 +70,8 @@ theorem cog8_flux_div (p : Cog8.P) (r t : ℝ) (hr : 0 < r) (ht : 0 < t) (hden :
     Cog8.L1.heat_flux_dr p r t + (p.geometry - 1) * Cog8.L1.heat_flux p r t / r = 0 := by
   simp only [epv_deriv, epv_leaf]
   rw [hα, hβ]
-  have h1 := Real.rpow_pos_of_pos hr (((p.geometry - (1 : ℝ)) - (1 : ℝ)) / ((p.beta - p.alpha) + (4 : ℝ)))
-  have h2 := Real.rpow_pos_of_pos ht (-(((p.geometry - (1 : ℝ)) + (1 : ℝ)) + (((p.geometry - (1 : ℝ)) - (1 : ℝ)) / ((p.beta - p.alpha) + (4 : ℝ)))))
-  have h3 := Real.rpow_pos_of_pos hr (-(((p.geometry - (1 : ℝ)) - (1 : ℝ)) / ((p.beta - p.alpha) + (4 : ℝ))))
-  have h4 := Real.rpow_pos_of_pos ht ((((1 : ℝ) - p.gamma) * ((p.geometry - (1 : ℝ)) + (1 : ℝ))) + (((p.geometry - (1 : ℝ)) - (1 : ℝ)) / ((p.beta - p.alpha) + (4 : ℝ))))
+  epv_hydro_gen_rpow
+  epv_hydro_den_facts
   field_simp
   ring
 
@@ -82,12 +80,9 @@ theorem cog8_energy (p : Cog8.P) (r t : ℝ) (hr : 0 < r) (ht : 0 < t) (hden : p
     (hα : p.alpha_ = p.alpha) (hβ : p.beta_ = p.beta) :
     energyResT (Cog8.L1.density p) (Cog8.L1.velocity p) (Cog8.L1.temperature p) p.Gamma p.gamma
       (p.geometry - 1) p.c_light p.a_rad p.lam0_ p.alpha_ p.beta_ r t = 0 := by
-  have hρ' : 0 < Cog8.L1.density p r t := by
-    simp only [epv_leaf]; positivity
-  have hT' : 0 < Cog8.L1.temperature p r t := by
-    simp only [epv_leaf]; positivity
-  exact energyResT_zero_of_split (cog8_flux_near p r t hr)
-    (Cog8.L1.heat_flux_hasDerivAt_r p r t hr hρ' hT' hr.ne')
+  have hF : HasDerivAt (fun x => Cog8.L1.heat_flux p x t) (Cog8.L1.heat_flux_dr p r t) r := by
+    epv_hydro_cert Cog8.L1.heat_flux_hasDerivAt_r p r t
+  exact energyResT_zero_of_split (cog8_flux_near p r t hr) hF
     (cog8_energy_hydro p r t hr ht hden hγ) (cog8_flux_div p r t hr ht hden hρ hT hα hβ)
 
 /-- non-vacuity: the hypotheses hold at the solver's defaults -/
